@@ -15,7 +15,7 @@ E_UNKNOWN_SERVICE, E_UNKNOWN_METHOD, E_WRONG_IFACE, E_MALFORMED, E_WRONG_TYPE = 
 ADDR = ("192.0.2.77", 40000)
 
 
-def make(loop, sid, major):
+def make(loop, sid, major, with_subscriber=False):
     class S(svc.SimpleService):
         service_id = sid
         version_major = major
@@ -42,6 +42,20 @@ def make(loop, sid, major):
 
     s = S()
     s.transport = FakeTransport(loop, sockname=("192.0.2.1", 30501))
+    if with_subscriber:
+        # the caller is also a subscriber of one of the service's eventgroups (its notifications go to the address the
+        # calls come from)
+        import ipaddress
+        import someip.header as hdr
+        import someip.sd as sd
+        eg = svc.SimpleEventgroup(s, id=5)
+        eg.values[1] = b"v"
+        s.register_eventgroup(eg)
+        ep = hdr.IPv4EndpointOption(ipaddress.IPv4Address(ADDR[0]), hdr.L4Protocols.UDP, ADDR[1])
+        s.client_subscribed(sd.EventgroupSubscription(service_id=sid, instance_id=1, major_version=major, id=5, counter=0, ttl=3,
+                                                      endpoints=frozenset([ep])), ("192.0.2.77", 30490))
+        loop.settle()
+        s.transport.sent.clear()
     return s
 
 
@@ -210,7 +224,7 @@ def part_sequences(args):
     """every sequence of up to three messages from a 16-letter alphabet (handler kinds x request / fire-and-forget,
     failing header checks, multicast) to one fresh service object: the verdict on a message never depends on what was
     received before"""
-    own_sid, own_major, maxlen = args
+    own_sid, own_major, maxlen, with_subscriber = args
     loop = VLoop().install()
     res = []
     n = 0
@@ -226,7 +240,7 @@ def part_sequences(args):
                      ((own_sid, 1, 3, 4, own_major, 0x01, 0, b"zz"), False), ((own_sid, 3, 3, 4, own_major, 0x01, 0, b""), True)]
         for ln in range(2, maxlen + 1):
             for seq in itertools.product(range(len(alphabet)), repeat=ln):
-                s = make(loop, own_sid, own_major)
+                s = make(loop, own_sid, own_major, with_subscriber)
                 n += 1
                 for pos, li in enumerate(seq):
                     f, multicast = alphabet[li]
@@ -242,7 +256,8 @@ def part_sequences(args):
                     bad = judge(s, own_sid, own_major, f, multicast, exc)
                     for clause, disc, detail in bad:
                         res.append((clause, "after-history-" + disc, detail + f" (message {pos + 1} of the sequence {seq})",
-                                    dict(own=(own_sid, own_major), sequence=[alphabet[i] for i in seq[:pos + 1]])))
+                                    dict(own=(own_sid, own_major), sequence=[alphabet[i] for i in seq[:pos + 1]],
+                                         with_subscriber=with_subscriber)))
                     if bad:
                         break
                 if len(res) > 40:
@@ -303,7 +318,7 @@ def check(ctx):
     out = core.pmap(part, parts, 1)
     out += core.pmap(part_history, [(own_sid, own_major)], 1)
     out += core.pmap(part_long, [(own_sid, own_major)], 1)
-    out += core.pmap(part_sequences, [(own_sid, own_major, 4 if ctx.thorough else 3)], 1)
+    out += core.pmap(part_sequences, [(own_sid, own_major, 4 if ctx.thorough else 3, ws) for ws in (False, True)], 1)
     n = sum(o[0] for o in out)
     viols = []
     classes = {}
@@ -338,7 +353,7 @@ def replay(ctx, body):
     if "sequence" in case:
         loop = VLoop().install()
         try:
-            s = make(loop, own[0], own[1])
+            s = make(loop, own[0], own[1], bool(case.get("with_subscriber")))
             res = []
             for f, multicast in case["sequence"]:
                 s.transport.sent.clear()
